@@ -52,6 +52,13 @@ TEXTS = {
              "differential of the real RecordBuilderExt (incl. budget exhaustion), inspection of every record the real producer emits under every limit option.",
         design_ref="DESIGN.md 6/C13", note="Trusted: Coq kernel + vm_compute; no axioms; Go harness; arrow-go dictionary builders assumed to memoise per builder.",
         technique="Coq proof (invariant over histories) + op-sequence and record-level differentials + producer output inspection"),
+    "C17": dict(
+        text="Theorems: the Feistel FPE structure is length-preserving and injective for EVERY round function, every number of rounds, every byte string; the processor's "
+             "copy-rebuild-copy-back of attribute maps keeps every attribute in place in encrypt_all mode (keys renamed injectively) and, in list mode, keeps unlisted "
+             "attributes untouched (one visible no-collision hypothesis). Tied by reproducing the real cipher byte for byte from a tabulated round function and by aligning "
+             "real processor input/output through the model (one injective, length-preserving substitution table per instance; model output = real output).",
+        design_ref="DESIGN.md 6/C17", note="Trusted: Coq kernel + vm_compute; no axioms; Go harness; SHA-256 abstracted; pdata container semantics modelled.",
+        technique="Coq proof (injectivity of unbalanced Feistel for arbitrary F; map rebuild lemma) + cipher and processor differentials"),
 }
 
 NOT_APPLICABLE = []
